@@ -7,9 +7,12 @@ quantifies over all schedules (`run init tr` for an arbitrary label list `tr`, c
 included).  `sent` is the linearised send history of arbiter `i`'s command channel (send order),
 `started` the order in which its `LocalSet` polled spawned futures for the first time.
 
-In the model a task *is started by arbiter `i`* iff it appears in `(arbs i).started`; thread identity
-(`Arbiter::current()`, `System::current()`, the OS thread) is therefore by construction and is
-checked on the real runs by the harness (engine `rt`, `ids=ok` and the `ident` cases).
+In the model a task *is started by arbiter `i`* iff it appears in `(arbs i).started`; the OS thread
+is therefore by construction and is checked on the real runs by the harness (engine `rt`, `ids=ok`).
+What `Arbiter::current()` / `System::current()` return is the content of two thread-locals, modelled
+by `TLS` (`current_identifies_latest`; `ident` cases of the harness, also on threads that host their
+2nd, 3rd … System).  Every theorem covers the system arbiter (`i = sysArbId`, present in `init`),
+whose futures — unlike those of an `Arbiter::new` thread — may still start after its loop has ended.
 `block_on_output` is glue over an abstract future and rests on the correspondence run.
 -/
 namespace ActixNet.C10
@@ -66,7 +69,23 @@ theorem join_after_loop_end (tr : List Act) (i : Nat) (hj : joinReturns (run ini
   have hR := reach_init.run tr
   have hg := (hR.all i).exited_gone hj
   have he := (hR.all i).gone_ended hg
-  exact ⟨he, hg, hR.exit i hj, fun tr' => ended_frozen_run he tr'⟩
+  exact ⟨he, hg, hR.exit i hj, fun tr' => ended_frozen_run he ((hR.all i).exited_notsys hj) tr'⟩
+
+/-- **`Arbiter::current()` / `System::current()` identify the arbiter and system the thread hosts
+now** — whatever it hosted before.  After `System::new()` (system `sid`, system arbiter `aid`) or on
+the thread of `Arbiter::new()` (arbiter `aid` of system `sid`), following an arbitrary history `h` of
+earlier Systems / arbiters on the same OS thread and followed by any number of `SystemRunner` drops,
+the thread-locals hold exactly `aid` and `sid`. -/
+theorem current_identifies_latest (t : TLS) (h : List TAct) (sid aid k : Nat) :
+    (TLS.run t (h ++ [.newSystem sid aid] ++ List.replicate k .dropRunner) =
+      { handle := some aid, current := some sid }) ∧
+    (TLS.run t (h ++ [.arbThread sid aid] ++ List.replicate k .dropRunner) =
+      { handle := some aid, current := some sid }) := by
+  have hd : ∀ (k : Nat) (u : TLS), TLS.run u (List.replicate k .dropRunner) = u := by
+    intro k; induction k with
+    | zero => intro u; rfl
+    | succ k ih => intro u; simpa [List.replicate, TLS.run, TLS.step] using ih u
+  constructor <;> (rw [TLS.run_append, TLS.run_append, hd]; rfl)
 
 /-- **`block_on` returns exactly its future's output** (glue: the future is abstracted to "pending
 `pend` times, then `out`"; that the real `Runtime::block_on` behaves like this rests on the
@@ -96,5 +115,25 @@ example : (run (run init demo) [.runner 0, .send 0 (.exec 13), .close 0, .send 0
     = [true, true, true, true, true, false] := by decide
 example : joinReturns (run (run init demo) [.runner 0, .close 0, .fin 0]) 0 = true := by decide
 example : blockOn ({ pend := 3, out := 42 } : Fut Nat) = some 42 := by decide
+-- the system arbiter: a future received before the `Stop` may start after the loop has ended (the
+-- system thread's LocalSet goes on) — on an `Arbiter::new` thread it may not (second example) —
+-- and a future sent after the `Stop` never starts on either
+def sysDemo (i : Nat) : List Act :=
+  [.newArb i, .send i (.exec 1), .send i .stop, .send i (.exec 2), .runner i, .runner i, .runner i,
+   .task i, .task i]
+example : ((run init (sysDemo sysArbId)).arbs sysArbId).ended = true ∧
+    ((run init (sysDemo sysArbId)).arbs sysArbId).started = [1] := by decide
+example : ((run init (sysDemo 0)).arbs 0).ended = true ∧ ((run init (sysDemo 0)).arbs 0).started = [] := by decide
+-- a backlog found in one go (3 executes, Stop, 6 executes; the model is unbounded in the length): whatever the runner and the
+-- LocalSet do with it, only the 3 in front can start
+example : ((run init ([.newArb 0] ++ (List.range 3).map (fun t => .send 0 (.exec t)) ++ [.send 0 .stop] ++
+      (List.range 6).map (fun t => .send 0 (.exec (100 + t))) ++
+      List.replicate 10 (.runner 0) ++ List.replicate 10 (.task 0))).arbs 0).started = [] := by decide
+example : ((run init ([.send sysArbId (.exec 0), .send sysArbId .stop] ++
+      (List.range 6).map (fun t => .send sysArbId (.exec (100 + t))) ++
+      List.replicate 10 (.runner sysArbId) ++ List.replicate 10 (.task sysArbId))).arbs sysArbId).started = [0] := by decide
+-- the third System hosted by a thread that also ran an arbiter … is the one `current()` reports
+example : TLS.run {} [.newSystem 0 10, .dropRunner, .newSystem 1 11, .newSystem 2 12] =
+    { handle := some 12, current := some 2 } := by decide
 
 end ActixNet.C10
